@@ -3,6 +3,8 @@
   Type ids are natural numbers in the model (distinct types = distinct numbers, whatever the layout).
 -/
 import AnyVecModel.Proofs.Exec
+import AnyVecModel.Proofs.KernelApiOps
+import AnyVecModel.Proofs.KernelValue
 namespace AnyVec
 namespace C04
 open World
@@ -117,6 +119,36 @@ def sampleWorld : World := { vecs := [sampleVec], created := 12 }
 example : (push 0 (.wrapper 12 3) sampleWorld).2 = .panic "Type mismatch!" := by decide
 example : (step { size := 8, align := 8, hasDrop := true } (.remove 0 0 (.downcast 3)) sampleWorld).2 = .ok ["N"] := by
   decide
+
+/-- **source tie**: the checked entry points run the run-time type check first (as the source has them on this run):
+`push` and `insert` call `type_check` - the value's `value_typeid()` against the vector's `type_id`,
+`assert_types_equal` - before `push_unchecked` / `insert_unchecked`; the typed view needs no check (it wraps a `T`). -/
+theorem type_checks_are_the_source (len i : Nat) :
+    Gen.Kernel.anyvec_push_trace len i = [.call "type_check" [], .call "push_unchecked" []] ∧
+    Gen.Kernel.anyvec_insert_trace len i = [.call "type_check" [], .call "insert_unchecked" [i]] ∧
+    Gen.Kernel.raw_type_check_trace len i = [.call "value_typeid" [], .call "assert_types_equal" []] ∧
+    Gen.Kernel.typed_push_trace len i = [.call "AnyValueWrapper::new" [], .call "push_unchecked" []] ∧
+    Gen.Kernel.typed_insert_trace len i = [.call "AnyValueWrapper::new" [], .call "insert_unchecked" [i]] :=
+  ⟨(KernelTie.anyvec_ops_tie len i 0 0).1, (KernelTie.anyvec_ops_tie len i 0 0).2.1, KernelTie.type_check_tie len i,
+   (KernelTie.typed_ops_tie len i 0 0).1, (KernelTie.typed_ops_tie len i 0 0).2.1⟩
+
+/-- **source tie**: every checked downcast of the source on this run - of a value (`AnyValue::downcast_ref`, `downcast`,
+`AnyValueMut::downcast_mut`), of an element handle (`ElementPointer::downcast_ref/mut`), of the whole vector
+(`AnyVec::downcast_ref/mut`) - compares the run-time type id it carries with `TypeId::of::<T>()` of the requested type
+and hands the value out exactly when they are equal; a value swap asserts equal type ids before touching anything. -/
+theorem downcasts_are_the_source (sameType : Bool) :
+    KernelTie.handsOut (Gen.Kernel.value_downcast_ref_trace sameType) = sameType ∧
+    KernelTie.handsOut (Gen.Kernel.value_downcast_trace sameType) = sameType ∧
+    KernelTie.handsOut (Gen.Kernel.value_downcast_mut_trace sameType) = sameType ∧
+    KernelTie.handsOut (Gen.Kernel.element_downcast_ref_trace sameType) = sameType ∧
+    KernelTie.handsOut (Gen.Kernel.element_downcast_mut_trace sameType) = sameType ∧
+    KernelTie.handsOut (Gen.Kernel.anyvec_downcast_ref_trace sameType) = sameType ∧
+    KernelTie.handsOut (Gen.Kernel.anyvec_downcast_mut_trace sameType) = sameType ∧
+    Gen.Kernel.value_swap_trace sameType =
+      [.call "value_typeid" [], .call "value_typeid" [], .call "assert_eq!" [], .call "swap_unchecked" []] := by
+  have h := KernelTie.downcast_tie sameType
+  exact ⟨h.2.2.2.2.2.2.2.1, h.2.2.2.2.2.2.2.2.1, h.2.2.2.2.2.2.2.2.2.1, h.2.2.2.2.2.2.2.2.2.2.1, h.2.2.2.2.2.2.2.2.2.2.2.1,
+    h.2.2.2.2.2.2.2.2.2.2.2.2.1, h.2.2.2.2.2.2.2.2.2.2.2.2.2, (KernelTie.downcast_unchecked_tie sameType).2⟩
 
 end C04
 end AnyVec
